@@ -13,7 +13,7 @@ import statistics
 from schema_markdown import parse_schema_markdown, validate_type
 
 from .parser import parse_expression
-from .value import value_boolean, value_compare, value_json, value_parse_datetime, value_parse_number
+from .value import value_boolean, value_compare, value_json, value_parse_datetime, value_parse_number, value_type
 
 
 # Helper to dynamically import evaluate_expression to avoid the circular dependency
@@ -199,7 +199,7 @@ def join_data(left_data, right_data, join_expr, right_expr=None, is_left_join=Fa
         # Bucket the right rows by the right expression value
         right_category_rows = {}
         for right_row in right_data:
-            category_key = value_json(evaluate_expression(right_expression, eval_options, right_row))
+            category_key = _value_key(evaluate_expression(right_expression, eval_options, right_row))
             if category_key not in right_category_rows:
                 right_category_rows[category_key] = []
             right_category_rows[category_key].append(right_row)
@@ -207,7 +207,7 @@ def join_data(left_data, right_data, join_expr, right_expr=None, is_left_join=Fa
         # Join the left with the right
         data = []
         for left_row in left_data:
-            category_key = value_json(evaluate_expression(left_expression, eval_options, left_row))
+            category_key = _value_key(evaluate_expression(left_expression, eval_options, left_row))
             if category_key in right_category_rows:
                 for right_row in right_category_rows[category_key]:
                     join_row = dict(left_row)
@@ -220,6 +220,14 @@ def join_data(left_data, right_data, join_expr, right_expr=None, is_left_join=Fa
         _update_statement_count(options, eval_options)
 
     return data
+
+
+# Helper to compute a grouping/join key for a value - values of different types never share a key
+# (the JSON text alone does not tell a datetime from its ISO string or a function from '<function>')
+def _value_key(value):
+    if isinstance(value, list):
+        return f'[{",".join(_value_key(item) for item in value)}]'
+    return f'{value_type(value)}:{value_json(value)}'
 
 
 def add_calculated_field(data, field_name, expr, variables=None, options=None):
@@ -335,7 +343,7 @@ def aggregate_data(data, aggregation):
         category_values = [row.get(category) for category in categories] if categories is not None else None
 
         # Get or create the aggregate row
-        row_key = value_json(category_values) if category_values is not None else ''
+        row_key = _value_key(category_values) if category_values is not None else ''
         if row_key in category_rows:
             aggregate_row = category_rows[row_key]
         else:
@@ -476,7 +484,7 @@ def top_data(data, count, category_fields=None):
     category_rows = {}
     category_order = []
     for row in data:
-        category_key = '' if category_fields is None else value_json([row.get(field) for field in category_fields])
+        category_key = '' if category_fields is None else _value_key([row.get(field) for field in category_fields])
         if category_key not in category_rows:
             category_rows[category_key] = []
             category_order.append(category_key)
